@@ -54,10 +54,21 @@ Faults ==
 Pairwise(f) == f.kind # "fault" \/ f.cls \notin {"fault", "subclass"}
                \/ f.msg = "plain" \/ f.detail = "none"
 
-Cases == { c \in [fam : OutFams, meth : Methods, f : {f \in Faults : Pairwise(f)}] :
+\* where the object is raised:
+\*   fn       in the user function
+\*   retlis   in a listener of the service's method_return_object event (user code that runs after the function returned)
+\*   sw_json / sw_soap11   in the user function, AFTER it has chosen another output protocol for this request
+\*            (ctx.out_protocol = ...): the fault travels in the protocol of THIS request, status line included
+Wheres == {"fn", "retlis", "sw_json", "sw_soap11"}
+EffFam(c) == CASE c.where = "sw_json" -> "json" [] c.where = "sw_soap11" -> "soap11" [] OTHER -> c.fam
+Cases == { c \in [fam : OutFams, meth : Methods, f : {f \in Faults : Pairwise(f)}, where : Wheres] :
              \* the SOAP 1.2 fault vocabulary is closed (property-stated exclusion)
              /\ (c.fam = "soap12" /\ c.f.kind = "fault" => c.f.code[1] \in {"Client", "Server"})
-             /\ (c.meth \in {"g", "gen"} => (c.f.msg \in {"plain", "secret", "class"} /\ c.f.detail \in {"none", "multi"})) }
+             /\ (c.meth \in {"g", "gen"} => (c.f.msg \in {"plain", "secret", "class"} /\ c.f.detail \in {"none", "multi"}))
+             /\ (c.where # "fn" => c.meth = "f" /\ c.f.msg \in {"plain", "secret", "class"} /\ c.f.detail \in {"none", "flat"})
+             /\ (c.where # "fn" /\ EffFam(c) = "http" => c.f.detail = "none")      \* (the plain-text form has no place for a detail: recorded finding)
+             /\ (c.where = "sw_json" => c.fam \in Soap \cup {"xml"})
+             /\ (c.where = "sw_soap11" => c.fam \in {"json", "http", "xml", "msgpack"}) }
 
 \* ------------------------------------------------------------------ expected
 Expected(c) ==
@@ -65,7 +76,7 @@ Expected(c) ==
     THEN [code |-> <<"Server">>, msg |-> "InternalError", detail |-> DetailTree("none"),
           status |-> 500]
     ELSE [code |-> c.f.code, msg |-> c.f.msg, detail |-> DetailTree(c.f.detail),
-          status |-> PP!Status(c.fam \in Soap, c.f.cls, c.f.code)]
+          status |-> PP!Status(EffFam(c) \in Soap, c.f.cls, c.f.code)]
 
 \* ------------------------------------------------------------------- clauses
 Answered(c, o)   == o.escape = "none"
@@ -84,7 +95,8 @@ Holds(n, c, o) == CASE n = "Answered" -> Answered(c, o) [] n = "SameCode" -> Sam
 \* sanity of the table itself (checked by TLC as ASSUME in the export run)
 TableSane ==
   /\ \A c \in Cases : Expected(c).status \in {400, 401, 404, 405, 413, 500}
-  /\ \A c \in Cases : c.fam \in Soap => Expected(c).status = 500
+  /\ \A c \in Cases : EffFam(c) \in Soap => Expected(c).status = 500
+  /\ \E c \in Cases : c.fam \in Soap /\ Expected(c).status = 400
   /\ \A c \in Cases : c.f.kind = "exc" => Expected(c).code = <<"Server">>
   /\ \E c \in Cases : Expected(c).status = 413
   /\ \E c \in Cases : Expected(c).status = 400 /\ Len(c.f.code) = 4
